@@ -3,7 +3,11 @@
   Property theorems only (helpers live in WW/Proofs/Auth). The model is the table `requires`
   (contract × ExecuteMsg variant → rule on the sender) with the guarded dispatch `step` of
   WW/Model/Auth; it is tied to the 15 real contracts by the exhaustive `authmatrix` engine
-  (every variant × every role × before/after ownership transfer × randomised payloads).
+  (every variant × every role × {before, after ownership transfer, inside a flash-loan callback of the
+  vault} × randomised payloads; one cell per named flow for `CloseFlow`).
+
+  "In every state": the theorems quantify over ALL states `s : St` — any owners, a loan of the vault in
+  flight or not (`s.loan`), any list of stored flows (`s.flows`, any creators, colliding labels).
 
   `err` carries no state: a rejected call leaves the state unchanged by construction (`Res`).
 -/
@@ -15,65 +19,124 @@ open WW WW.Auth
 
 /-- Clause "an attempt by anyone else fails": for every state, every variant of every contract that
     has a rule and EVERY address that does not satisfy it, the call is rejected. -/
-theorem unauthorised_rejected_any_address (s : St) (m : Msg) (rule : AuthRule) (no : Option Principal)
-    (p : Principal) (hr : requires m = some rule) (hp : holds s m.contract rule p = false) :
-    stepP s m no p = .err := by
+theorem unauthorised_rejected_any_address (s : St) (m : Msg) (rule : AuthRule) (pl : Payload)
+    (p : Principal) (hr : requires m = some rule) (hp : holds s m.contract pl.flow rule p = false) :
+    stepP s m pl p = .err := by
   apply stepP_err_of_not_admits
-  unfold admitsP
-  rw [hr]
+  rw [admitsP_of_rule pl.flow p hr]
   exact hp
 
 /-- The same for the caller roles of the matrix (∀ contract, variant, role, state). -/
-theorem unauthorised_rejected (s : St) (m : Msg) (rule : AuthRule) (no : Option Principal) (r : Role)
-    (hr : requires m = some rule) (hp : holds s m.contract rule (resolve m.contract r) = false) :
-    step s m no r = .err :=
-  unauthorised_rejected_any_address s m rule no _ hr hp
+theorem unauthorised_rejected (s : St) (m : Msg) (rule : AuthRule) (pl : Payload) (r : Role)
+    (hr : requires m = some rule) (hp : holds s m.contract pl.flow rule (resolve m.contract r) = false) :
+    step s m pl r = .err :=
+  unauthorised_rejected_any_address s m rule pl _ hr hp
 
 /-- A history is a list of calls; a failed call is skipped (the transaction reverted). -/
-def applyCall (s : St) (c : Msg × Option Principal × Principal) : St :=
+def applyCall (s : St) (c : Msg × Payload × Principal) : St :=
   match stepP s c.1 c.2.1 c.2.2 with
   | .ok s' => s'
   | _ => s
 
-def reach (s : St) (h : List (Msg × Option Principal × Principal)) : St := h.foldl applyCall s
+def reach (s : St) (h : List (Msg × Payload × Principal)) : St := h.foldl applyCall s
 
 /-- "… and leaves all storage unchanged": a rejected call does not move the state. -/
-theorem rejected_unchanged (s : St) (m : Msg) (no : Option Principal) (p : Principal)
-    (h : admitsP s m p = false) : applyCall s (m, no, p) = s := by
+theorem rejected_unchanged (s : St) (m : Msg) (pl : Payload) (p : Principal)
+    (h : admitsP s m pl.flow p = false) : applyCall s (m, pl, p) = s := by
   unfold applyCall
   rw [stepP_err_of_not_admits h]
 
 /-- The dispatch never panics. -/
-theorem never_panics (s : St) (m : Msg) (no : Option Principal) (r : Role) : step s m no r ≠ .panic :=
-  stepP_never_panics s m no _
+theorem never_panics (s : St) (m : Msg) (pl : Payload) (r : Role) : step s m pl r ≠ .panic :=
+  stepP_never_panics s m pl _
+
+/-! ## transient state: a flash loan in flight -/
+
+/-- For every variant with a sender rule the verdict is the rule itself in EVERY state: whether a loan of
+    the vault is in flight makes no difference (`holds` does not read the flag). -/
+theorem privileged_verdict_ignores_loan (s : St) (b : Bool) (m : Msg) (rule : AuthRule) (sel : FlowSel)
+    (p : Principal) (hr : requires m = some rule) :
+    admitsP (s.withLoan b) m sel p = admitsP s m sel p := by
+  rw [admitsP_of_rule sel p hr, admitsP_of_rule sel p hr]
+  exact holds_withLoan s b m.contract sel rule p
+
+/-- A call made from inside a flash-loan callback is admitted only if the same call is admitted on the
+    idle contracts: a loan in flight gives nobody a right. -/
+theorem loan_in_flight_admits_nobody_new (s : St) (m : Msg) (sel : FlowSel) (p : Principal)
+    (h : admitsP (s.withLoan true) m sel p = true) : admitsP (s.withLoan false) m sel p = true := by
+  cases hr : requires m with
+  | some rule =>
+    rw [privileged_verdict_ignores_loan s true m rule sel p hr] at h
+    rw [privileged_verdict_ignores_loan s false m rule sel p hr]
+    exact h
+  | none => simp [admitsP, hr, St.withLoan]
+
+/-- The ONLY difference a loan in flight makes to the authorisation layer: the loan-guarded entry point
+    refuses everybody. -/
+theorem loan_changes_only_the_loan_guard (s : St) (m : Msg) (sel : FlowSel) (p : Principal) :
+    admitsP (s.withLoan true) m sel p = (!loanGuarded m && admitsP (s.withLoan false) m sel p) := by
+  cases hr : requires m with
+  | some rule =>
+    rw [privileged_verdict_ignores_loan s true m rule sel p hr,
+      privileged_verdict_ignores_loan s false m rule sel p hr,
+      rule_not_loanGuarded m (by rw [hr]; rfl)]
+    rfl
+  | none => simp [admitsP, hr, St.withLoan]
+
+/-- … and that entry point is the vault's `FlashLoan` (nested loans), nothing else. -/
+theorem loan_guard_is_nested_loan_only : ∀ m : Msg, loanGuarded m = true ↔ m = .vault .FlashLoan :=
+  forall_msg_of_all (by decide)
+
+/-- With a loan in flight a nested loan on the vault is refused for EVERY sender. -/
+theorem nested_loan_refused_for_all (s : St) (hl : s.loan = true) (sel : FlowSel) (p : Principal) :
+    admitsP s (.vault .FlashLoan) sel p = false := by
+  simp [admitsP, hl, loanGuarded]
+
+/-- Owner-guarded variants (all configuration, creation / removal, migration, hook and toggle messages) admit
+    exactly the stored owner — whatever else the state holds (loan in flight, any flows). -/
+theorem owner_guarded_iff (s : St) (m : Msg) (sel : FlowSel) (p : Principal) (h : requires m = some .owner) :
+    admitsP s m sel p = true ↔ p = s.owner m.contract := by
+  rw [admitsP_of_rule sel p h]
+  exact holds_owner_iff s m.contract sel p
+
+/-- The borrower of a flash loan cannot reconfigure the vault from inside its callback (unless it already
+    is the vault's owner). -/
+theorem vault_config_in_loan_owner_only (s : St) (pl : Payload) (p : Principal)
+    (hp : p ≠ s.owner .vault) : stepP (s.withLoan true) (.vault .UpdateConfig) pl p = .err := by
+  apply stepP_err_of_not_admits
+  cases h : admitsP (s.withLoan true) (.vault .UpdateConfig) pl.flow p with
+  | false => rfl
+  | true => exact absurd ((owner_guarded_iff _ _ _ _ rfl).mp h) hp
 
 /-! ## guarded dispatch = table lookup (refinement) -/
 
 /-- The authorisation verdict is exactly the table entry evaluated on the sender. -/
-theorem admits_is_table_lookup (s : St) (m : Msg) (r : Role) :
-    admits s m r = (match requires m with
+theorem admits_is_table_lookup (s : St) (m : Msg) (sel : FlowSel) (r : Role) :
+    admits s m sel r = (!(s.loan && loanGuarded m) && match requires m with
       | none => true
-      | some rule => holds s m.contract rule (resolve m.contract r)) := rfl
+      | some rule => holds s m.contract sel rule (resolve m.contract r)) := rfl
 
 /-- `step` succeeds iff the table admits the sender and every internal message the handler sends on;
     when it succeeds the only thing it writes is the owner named in the payload. -/
-theorem guarded_dispatch_refines_table (s : St) (m : Msg) (no : Option Principal) (r : Role) (s' : St) :
-    step s m no r = .ok s' ↔
-      (admits s m r = true ∧ subcallsAdmitted s m = true ∧ s' = effect s m no) :=
+theorem guarded_dispatch_refines_table (s : St) (m : Msg) (pl : Payload) (r : Role) (s' : St) :
+    step s m pl r = .ok s' ↔
+      (admits s m pl.flow r = true ∧ subcallsAdmitted s m = true ∧ s' = effect s m pl) :=
   stepP_ok_iff
 
 /-- A designated sender is admitted (the check does not lock the owner out): rule satisfied and
     internal flows admitted ⇒ the call goes through. -/
-theorem authorised_admitted (s : St) (m : Msg) (no : Option Principal) (r : Role)
-    (h : admits s m r = true) (hs : subcallsAdmitted s m = true) :
-    step s m no r = .ok (effect s m no) :=
-  (guarded_dispatch_refines_table s m no r _).mpr ⟨h, hs, rfl⟩
+theorem authorised_admitted (s : St) (m : Msg) (pl : Payload) (r : Role)
+    (h : admits s m pl.flow r = true) (hs : subcallsAdmitted s m = true) :
+    step s m pl r = .ok (effect s m pl) :=
+  (guarded_dispatch_refines_table s m pl r _).mpr ⟨h, hs, rfl⟩
 
-/-- Permissionless entry points admit every sender in every state. -/
-theorem permissionless_admits_all (s : St) (m : Msg) (p : Principal) (h : requires m = none) :
-    admitsP s m p = true := by
+/-- Permissionless entry points admit every sender in every state in which they are not loan-guarded
+    (i.e. everywhere, except the vault's `FlashLoan` while a loan is in flight). -/
+theorem permissionless_admits_all (s : St) (m : Msg) (sel : FlowSel) (p : Principal) (h : requires m = none)
+    (hl : (s.loan && loanGuarded m) = false) : admitsP s m sel p = true := by
   unfold admitsP
-  rw [h]
+  rw [h, hl]
+  rfl
 
 /-! ## the complete list of permissionless variants (for the reader to audit) -/
 
@@ -137,39 +200,47 @@ def ownUpdateConfig : Contract → Option Msg
     the owner's `UpdateConfig{owner := n}` succeeds, and afterwards an address is admitted to an
     owner-guarded variant of that contract iff it is `n`. -/
 theorem transfer_ownership (c : Contract) (uc : Msg) (huc : ownUpdateConfig c = some uc)
-    (s : St) (n : Principal) :
-    ∃ s', stepP s uc (some n) (s.owner c) = .ok s' ∧ s'.owner c = n ∧
+    (s : St) (n : Principal) (sel : FlowSel) :
+    ∃ s', stepP s uc ⟨some n, sel⟩ (s.owner c) = .ok s' ∧ s'.owner c = n ∧
       ∀ m : Msg, m.contract = c → requires m = some .owner →
-        ∀ p : Principal, admitsP s' m p = true ↔ p = n := by
-  have key : uc.contract = c ∧ requires uc = some .owner ∧ subcalls uc = [] ∧ ownerTarget uc = some c := by
+        ∀ (sel' : FlowSel) (p : Principal), admitsP s' m sel' p = true ↔ p = n := by
+  have key : uc.contract = c ∧ requires uc = some .owner ∧ subcalls uc = [] ∧ ownerTarget uc = some c ∧
+      uc ≠ .incentive .CloseFlow := by
     cases c <;> simp [ownUpdateConfig] at huc <;> subst huc <;> decide
-  obtain ⟨hc, hr, hsub, ht⟩ := key
+  obtain ⟨hc, hr, hsub, ht, hncf⟩ := key
+  have heff : effect s uc ⟨some n, sel⟩ = s.setOwner c n := by
+    have h1 : ownerEffect s uc (some n) = s.setOwner c n := by
+      unfold ownerEffect
+      rw [ht]
+    have h2 : ∀ t : St, flowEffect t uc sel = t := by
+      intro t
+      unfold flowEffect
+      split
+      · exact absurd rfl hncf
+      · rfl
+    unfold effect
+    rw [h1, h2]
   refine ⟨s.setOwner c n, ?_, setOwner_same s c n, ?_⟩
   · rw [stepP_ok_iff]
-    refine ⟨?_, ?_, ?_⟩
-    · unfold admitsP
-      rw [hr, hc]
-      simp [holds]
+    refine ⟨?_, ?_, heff.symm⟩
+    · rw [owner_guarded_iff _ _ _ _ hr, hc]
     · unfold subcallsAdmitted
       rw [hsub]
       rfl
-    · unfold effect
-      rw [ht]
-  · intro m hm hreq p
-    unfold admitsP
-    rw [hreq, hm, holds_owner_iff, setOwner_same]
+  · intro m hm hreq sel' p
+    rw [owner_guarded_iff _ _ _ _ hreq, hm, setOwner_same]
 
 /-- In particular the old owner is locked out (unless it named itself) and the new owner is in. -/
 theorem transfer_ownership_old_new (c : Contract) (uc : Msg) (huc : ownUpdateConfig c = some uc)
-    (s : St) (n : Principal) (hn : n ≠ s.owner c) :
-    ∃ s', stepP s uc (some n) (s.owner c) = .ok s' ∧
-      ∀ m : Msg, m.contract = c → requires m = some .owner →
-        admitsP s' m n = true ∧ admitsP s' m (s.owner c) = false := by
-  obtain ⟨s', h1, _, h3⟩ := transfer_ownership c uc huc s n
-  refine ⟨s', h1, fun m hm hr => ⟨(h3 m hm hr n).mpr rfl, ?_⟩⟩
-  cases h : admitsP s' m (s.owner c) with
+    (s : St) (n : Principal) (hn : n ≠ s.owner c) (sel : FlowSel) :
+    ∃ s', stepP s uc ⟨some n, sel⟩ (s.owner c) = .ok s' ∧
+      ∀ m : Msg, m.contract = c → requires m = some .owner → ∀ sel' : FlowSel,
+        admitsP s' m sel' n = true ∧ admitsP s' m sel' (s.owner c) = false := by
+  obtain ⟨s', h1, _, h3⟩ := transfer_ownership c uc huc s n sel
+  refine ⟨s', h1, fun m hm hr sel' => ⟨(h3 m hm hr sel' n).mpr rfl, ?_⟩⟩
+  cases h : admitsP s' m sel' (s.owner c) with
   | false => rfl
-  | true => exact absurd ((h3 m hm hr _).mp h).symm hn
+  | true => exact absurd ((h3 m hm hr sel' _).mp h).symm hn
 
 /-- Children are transferred through their factory: while the factory owns the child, the factory
     owner's `Update{Pair,Trio,Vault}Config{owner := n}` moves the child's owner to `n`; afterwards the
@@ -180,47 +251,50 @@ theorem transfer_child_via_factory (fm : Msg) (child fac : Contract)
       [ (Msg.terraswap_factory .UpdatePairConfig, Contract.terraswap_pair, Contract.terraswap_factory),
         (Msg.terraswap_factory .UpdateTrioConfig, Contract.stableswap_3pool, Contract.terraswap_factory),
         (Msg.vault_factory .UpdateVaultConfig, Contract.vault, Contract.vault_factory) ])
-    (s : St) (n : Principal) (hown : s.owner child = .contract fac) (hn : n ≠ .contract fac) :
-    ∃ s', stepP s fm (some n) (s.owner fac) = .ok s' ∧ s'.owner child = n ∧
-      (∀ uc, ownUpdateConfig child = some uc → admitsP s' uc (.contract fac) = false) ∧
-      (∀ no p, stepP s' fm no p = .err) := by
+    (s : St) (n : Principal) (hown : s.owner child = .contract fac) (hn : n ≠ .contract fac) (sel : FlowSel) :
+    ∃ s', stepP s fm ⟨some n, sel⟩ (s.owner fac) = .ok s' ∧ s'.owner child = n ∧
+      (∀ uc, ownUpdateConfig child = some uc → ∀ sel', admitsP s' uc sel' (.contract fac) = false) ∧
+      (∀ pl p, stepP s' fm pl p = .err) := by
   simp only [List.mem_cons, Prod.mk.injEq, List.mem_nil_iff, or_false] at h
   rcases h with ⟨rfl, rfl, rfl⟩ | ⟨rfl, rfl, rfl⟩ | ⟨rfl, rfl, rfl⟩
   all_goals
     refine ⟨s.setOwner _ n, ?_, setOwner_same _ _ _, ?_, ?_⟩
     · rw [stepP_ok_iff]
       refine ⟨?_, ?_, rfl⟩
-      · simp [admitsP, requires, holds, Msg.contract]
-      · simp [subcallsAdmitted, subcalls, admitsP, requires, holds, Msg.contract, hown]
-    · intro uc huc
+      · exact (owner_guarded_iff _ _ _ _ rfl).mpr rfl
+      · simp [subcallsAdmitted, subcalls, admitsP, requires, holds, Msg.contract, loanGuarded, hown]
+    · intro uc huc sel'
       simp [ownUpdateConfig] at huc
       subst huc
-      simp [admitsP, requires, holds, Msg.contract, St.setOwner]
+      simp [admitsP, requires, holds, Msg.contract, St.setOwner, loanGuarded]
       exact fun h => hn h.symm
-    · intro no p
+    · intro pl p
       unfold stepP
       split
       · rw [if_neg]
-        simp [subcallsAdmitted, subcalls, admitsP, requires, holds, Msg.contract, St.setOwner]
+        simp [subcallsAdmitted, subcalls, admitsP, requires, holds, Msg.contract, St.setOwner, loanGuarded]
         exact fun h => hn h.symm
       · rfl
 
 /-- Over any history the owner of a contract moves only through a message that targets it and that the
-    table admitted — and every such message is owner-guarded. -/
-theorem owner_moves_only_by_admitted_owner_call (s s' : St) (m : Msg) (no : Option Principal)
-    (p : Principal) (c : Contract) (h : stepP s m no p = .ok s') (hc : s'.owner c ≠ s.owner c) :
+    table admitted — and every such message is owner-guarded (in any state: a loan in flight, any flows). -/
+theorem owner_moves_only_by_admitted_owner_call (s s' : St) (m : Msg) (pl : Payload)
+    (p : Principal) (c : Contract) (h : stepP s m pl p = .ok s') (hc : s'.owner c ≠ s.owner c) :
     ownerTarget m = some c ∧ requires m = some .owner ∧ p = s.owner m.contract := by
   obtain ⟨hadm, _, heff⟩ := stepP_ok_iff.mp h
   have ht : ownerTarget m = some c := by
     subst heff
     unfold effect at hc
+    rw [flowEffect_owner] at hc
+    unfold ownerEffect at hc
     cases hot : ownerTarget m with
     | none => rw [hot] at hc; exact absurd rfl hc
     | some c' =>
       rw [hot] at hc
-      cases no with
-      | none => exact absurd rfl hc
+      cases hno : pl.newOwner with
+      | none => rw [hno] at hc; exact absurd rfl hc
       | some n =>
+        rw [hno] at hc
         by_cases hcc : c = c'
         · rw [hcc]
         · exact absurd (setOwner_other s n hcc) hc
@@ -230,10 +304,7 @@ theorem owner_moves_only_by_admitted_owner_call (s s' : St) (m : Msg) (no : Opti
       exact (forall_msg_of_all (P := fun m => ∀ c, ownerTarget m = some c → requires m = some .owner)
         (by decide)) m
     exact this m c ht
-  refine ⟨ht, hreq, ?_⟩
-  unfold admitsP at hadm
-  rw [hreq] at hadm
-  exact (holds_owner_iff s m.contract p).mp hadm
+  exact ⟨ht, hreq, (owner_guarded_iff s m pl.flow p hreq).mp hadm⟩
 
 /-- The transfer script the harness runs between the two phases succeeds in the model and hands every
     stored owner to `newOwner`. -/
@@ -241,19 +312,91 @@ theorem transfer_script_result (c : Contract) :
     (St.afterTransfer.toOption.map fun s => s.owner c) = some (afterOwner c) := by
   cases c <;> rfl
 
-/-- Matrix form, both phases, every owner-guarded variant of every contract: before the transfer the
-    future owner is refused; after it the previous owner is refused and the new owner admitted. -/
+/-- Matrix form, all phases, every owner-guarded variant of every contract: before the transfer the
+    future owner is refused — also from inside a flash-loan callback —; after it the previous owner is
+    refused and the new owner admitted. -/
 theorem transfer_matrix :
     ∀ m : Msg, requires m = some .owner →
-      admits St.init m .newOwner = false ∧
-      admits ⟨afterOwner⟩ m .owner = false ∧ admits ⟨afterOwner⟩ m .newOwner = true :=
+      admits St.init m .none .newOwner = false ∧ admits (St.init.withLoan true) m .none .newOwner = false ∧
+      admits afterSt m .none .owner = false ∧ admits afterSt m .none .newOwner = true :=
   forall_msg_of_all (by decide)
+
+/-! ## stored objects: WHICH flow a message denotes, and whose it is -/
+
+/-- `CloseFlow` on an existing flow is admitted for the creator of THE FLOW THE MESSAGE DENOTES (the first
+    match in storage order) and for the incentive factory's owner — nobody else, in every state, for ids
+    and for (non-unique) labels alike. -/
+theorem close_flow_admits_iff (s : St) (sel : FlowSel) (f : Flow) (p : Principal)
+    (h : s.resolve sel = some f) :
+    admitsP s (.incentive .CloseFlow) sel p = true ↔ (p = f.creator ∨ p = s.owner .incentive_factory) := by
+  rw [admitsP_of_rule (rule := .flowCreatorOrFactoryOwner) sel p rfl]
+  simp [holds, h]
+
+/-- Having created OTHER flows — under the same label or not — gives no right over the flow a message
+    denotes: whoever is neither that flow's creator nor the factory owner is rejected. -/
+theorem other_flows_give_no_right (s : St) (pl : Payload) (f : Flow) (p : Principal)
+    (h : s.resolve pl.flow = some f) (hc : p ≠ f.creator) (ho : p ≠ s.owner .incentive_factory) :
+    stepP s (.incentive .CloseFlow) pl p = .err := by
+  apply stepP_err_of_not_admits
+  cases hh : admitsP s (.incentive .CloseFlow) pl.flow p with
+  | false => rfl
+  | true =>
+    rcases (close_flow_admits_iff s pl.flow f p h).mp hh with h1 | h1
+    · exact absurd h1 hc
+    · exact absurd h1 ho
+
+/-- What a successful `CloseFlow` does to the authorisation state: it removes the denoted flow and nothing
+    else (owners and the loan flag are not touched). -/
+theorem close_flow_removes_exactly_denoted (s s' : St) (pl : Payload) (p : Principal)
+    (h : stepP s (.incentive .CloseFlow) pl p = .ok s') :
+    s'.owner = s.owner ∧ s'.loan = s.loan ∧
+      s'.flows = (match s.resolve pl.flow with
+        | some f => s.flows.erase f
+        | none => s.flows) := by
+  obtain ⟨_, _, heff⟩ := stepP_ok_iff.mp h
+  subst heff
+  have h0 : ownerEffect s (.incentive .CloseFlow) pl.newOwner = s := by
+    unfold ownerEffect
+    rfl
+  unfold effect
+  rw [h0]
+  refine ⟨flowEffect_owner _ _ _, flowEffect_loan _ _ _, ?_⟩
+  unfold flowEffect
+  cases s.resolve pl.flow <;> rfl
+
+/-- The monitor's statement, for the model: whichever flow a successful `CloseFlow` removed, it is one the
+    identifier names, the sender was its creator or the factory owner, and every other flow is still there. -/
+theorem closed_flow_belongs_to_sender (s s' : St) (pl : Payload) (p : Principal) (f : Flow)
+    (h : stepP s (.incentive .CloseFlow) pl p = .ok s') (hf : s.resolve pl.flow = some f) :
+    s'.flows = s.flows.erase f ∧ f.matches pl.flow = true ∧
+      (p = f.creator ∨ p = s.owner .incentive_factory) ∧
+      (∀ g ∈ s.flows, g ≠ f → g ∈ s'.flows) := by
+  obtain ⟨_, _, h3⟩ := close_flow_removes_exactly_denoted s s' pl p h
+  rw [hf] at h3
+  obtain ⟨hadm, _, _⟩ := stepP_ok_iff.mp h
+  refine ⟨h3, (resolve_some hf).2, (close_flow_admits_iff s pl.flow f p hf).mp hadm, ?_⟩
+  intro g hg hne
+  rw [h3]
+  exact (List.mem_erase_of_ne hne).mpr hg
+
+/-- No other message touches the stored flows. -/
+theorem only_close_flow_touches_flows (s s' : St) (m : Msg) (pl : Payload) (p : Principal)
+    (h : stepP s m pl p = .ok s') (hm : m ≠ .incentive .CloseFlow) : s'.flows = s.flows := by
+  obtain ⟨_, _, heff⟩ := stepP_ok_iff.mp h
+  subst heff
+  unfold effect flowEffect
+  split
+  · exact absurd rfl hm
+  · exact ownerEffect_flows s m pl.newOwner
 
 /-- The incentive contract stores no owner: closing a flow follows the incentive FACTORY's owner, so a
     transfer of the factory moves this right as well (the flow's creator keeps it). -/
-theorem close_flow_follows_factory_owner (s : St) (p : Principal) :
-    admitsP s (.incentive .CloseFlow) p = true ↔ (p = .acct .flowCreator ∨ p = s.owner .incentive_factory) := by
-  simp [admitsP, requires, holds]
+theorem close_flow_follows_factory_owner (s : St) (n : Principal) (sel : FlowSel) (f : Flow) (p : Principal)
+    (h : s.resolve sel = some f) :
+    admitsP (s.setOwner .incentive_factory n) (.incentive .CloseFlow) sel p = true ↔
+      (p = f.creator ∨ p = n) := by
+  have h' : (s.setOwner .incentive_factory n).resolve sel = some f := h
+  rw [close_flow_admits_iff _ sel f p h', setOwner_same]
 
 /-! ## internal callbacks: designated contract only -/
 
@@ -272,27 +415,28 @@ def designated : Msg → Option Principal
     designated contract and for nobody else, in every state. -/
 def CallbacksDesignatedOnly : Prop :=
   ∀ (m : Msg) (d : Principal), designated m = some d →
-    ∀ (s : St) (p : Principal), admitsP s m p = true ↔ p = d
+    ∀ (s : St) (sel : FlowSel) (p : Principal), admitsP s m sel p = true ↔ p = d
 
 /-- Witness of the known finding `C16-router-assert-min-receive-open`: the model — like
     terraswap_router/src/contract.rs, whose `AssertMinimumReceive` arm never looks at `info.sender` —
     admits EVERY sender in every state. (Replay: replays/known/C16-router-assert-min-receive-open.json;
     two baseline tests `assert_minimum_receive_*` require this behaviour, so it is not repaired.) -/
-theorem C16_router_amr_open (s : St) (p : Principal) :
-    admitsP s (.terraswap_router .AssertMinimumReceive) p = true := rfl
+theorem C16_router_amr_open (s : St) (sel : FlowSel) (p : Principal) :
+    admitsP s (.terraswap_router .AssertMinimumReceive) sel p = true := by
+  simp [admitsP, requires, loanGuarded]
 
 /-- Hence the full clause is false on the current code (kernel-checked negation). -/
 theorem C16_fails_on_current : ¬ CallbacksDesignatedOnly := by
   intro h
-  have := (h (.terraswap_router .AssertMinimumReceive) _ rfl St.init (.acct .user)).mp
-    (C16_router_amr_open _ _)
+  have := (h (.terraswap_router .AssertMinimumReceive) _ rfl St.init .none (.acct .user)).mp
+    (C16_router_amr_open _ _ _)
   cases this
 
 /-- What holds: the clause for the five callbacks other than `AssertMinimumReceive`
     (missing for the full statement: a sender check in the router's `AssertMinimumReceive`). -/
 theorem callbacks_designated_only_partial (m : Msg) (d : Principal) (hd : designated m = some d)
-    (hm : m ≠ .terraswap_router .AssertMinimumReceive) (s : St) (p : Principal) :
-    admitsP s m p = true ↔ p = d := by
+    (hm : m ≠ .terraswap_router .AssertMinimumReceive) (s : St) (sel : FlowSel) (p : Principal) :
+    admitsP s m sel p = true ↔ p = d := by
   have cases5 : m = .vault .Callback_AfterTrade ∨ m = .terraswap_router .ExecuteSwapOperation ∨
       m = .vault_router .NextLoan ∨ m = .vault_router .CompleteLoan ∨ m = .fee_collector .ForwardFees := by
     have hsome : (designated m).isSome = true := by rw [hd]; rfl
@@ -304,16 +448,16 @@ theorem callbacks_designated_only_partial (m : Msg) (d : Principal) (hd : design
   rcases cases5 with rfl | rfl | rfl | rfl | rfl <;>
     · simp [designated] at hd
       subst hd
-      simp [admitsP, requires, holds, Msg.contract]
+      simp [admitsP, requires, holds, Msg.contract, loanGuarded]
 
-/-- `callbacks_designated_only` for the five, spelled out. -/
-theorem callbacks_designated_only (s : St) (p : Principal) :
-    (admitsP s (.vault .Callback_AfterTrade) p = true ↔ p = .contract .vault) ∧
-    (admitsP s (.terraswap_router .ExecuteSwapOperation) p = true ↔ p = .contract .terraswap_router) ∧
-    (admitsP s (.vault_router .NextLoan) p = true ↔ p = .contract .vault) ∧
-    (admitsP s (.vault_router .CompleteLoan) p = true ↔ p = .contract .vault_router) ∧
-    (admitsP s (.fee_collector .ForwardFees) p = true ↔ p = .contract .fee_distributor) := by
-  refine ⟨?_, ?_, ?_, ?_, ?_⟩ <;> simp [admitsP, requires, holds, Msg.contract]
+/-- `callbacks_designated_only` for the five, spelled out (every state: also while a loan is in flight). -/
+theorem callbacks_designated_only (s : St) (sel : FlowSel) (p : Principal) :
+    (admitsP s (.vault .Callback_AfterTrade) sel p = true ↔ p = .contract .vault) ∧
+    (admitsP s (.terraswap_router .ExecuteSwapOperation) sel p = true ↔ p = .contract .terraswap_router) ∧
+    (admitsP s (.vault_router .NextLoan) sel p = true ↔ p = .contract .vault) ∧
+    (admitsP s (.vault_router .CompleteLoan) sel p = true ↔ p = .contract .vault_router) ∧
+    (admitsP s (.fee_collector .ForwardFees) sel p = true ↔ p = .contract .fee_distributor) := by
+  refine ⟨?_, ?_, ?_, ?_, ?_⟩ <;> simp [admitsP, requires, holds, Msg.contract, loanGuarded]
 
 /-- The sender checks do not block the protocol's own flows: at genesis every internal message a
     handler sends on as itself is admitted by its receiver. -/
@@ -322,32 +466,52 @@ theorem internal_flows_admitted : ∀ m : Msg, subcallsAdmitted St.init m = true
 
 /-- The router's route management is guarded by the wasm admin, not by any configured owner
     (recorded assumption: every deployment sets the admin; the harness always does). -/
-theorem routes_wasm_admin_only (s : St) (p : Principal) :
-    (admitsP s (.terraswap_router .AddSwapRoutes) p = true ↔ p = .acct .wasmAdmin) ∧
-    (admitsP s (.terraswap_router .RemoveSwapRoutes) p = true ↔ p = .acct .wasmAdmin) := by
-  constructor <;> simp [admitsP, requires, holds]
+theorem routes_wasm_admin_only (s : St) (sel : FlowSel) (p : Principal) :
+    (admitsP s (.terraswap_router .AddSwapRoutes) sel p = true ↔ p = .acct .wasmAdmin) ∧
+    (admitsP s (.terraswap_router .RemoveSwapRoutes) sel p = true ↔ p = .acct .wasmAdmin) := by
+  constructor <;> simp [admitsP, requires, holds, loanGuarded]
 
 /-! ## non-vacuity / concrete outputs of the model -/
 
 -- a stranger is refused on a privileged variant, the owner is admitted, at genesis
-example : (step St.init (.vault_factory .CreateVault) none .user).isOk = false := by decide
-example : (step St.init (.vault_factory .CreateVault) none .owner).isOk = true := by decide
+example : (step St.init (.vault_factory .CreateVault) .plain .user).isOk = false := by decide
+example : (step St.init (.vault_factory .CreateVault) .plain .owner).isOk = true := by decide
 -- children belong to their factory: the hub owner is refused, the factory admitted …
-example : admits St.init (.terraswap_pair .UpdateConfig) .owner = false := by decide
-example : admits St.init (.terraswap_pair .UpdateConfig) .factory = true := by decide
+example : admits St.init (.terraswap_pair .UpdateConfig) .none .owner = false := by decide
+example : admits St.init (.terraswap_pair .UpdateConfig) .none .factory = true := by decide
 -- … and after the transfer script the roles have swapped
-example : admits ⟨afterOwner⟩ (.terraswap_pair .UpdateConfig) .factory = false := by decide
-example : admits ⟨afterOwner⟩ (.terraswap_pair .UpdateConfig) .newOwner = true := by decide
+example : admits afterSt (.terraswap_pair .UpdateConfig) .none .factory = false := by decide
+example : admits afterSt (.terraswap_pair .UpdateConfig) .none .newOwner = true := by decide
 -- the forwarding call of the (new) factory owner is admitted by the factory but refused by the pair
-example : nestedRefusal ⟨afterOwner⟩ (.terraswap_factory .UpdatePairConfig) .newOwner = true := by decide
+example : nestedRefusal afterSt (.terraswap_factory .UpdatePairConfig) .none .newOwner = true := by decide
 -- the hypotheses of `transfer_ownership` are met by all 12 owned contracts
 example : (allContracts.filter fun c => (ownUpdateConfig c).isSome).length = 12 := by decide
--- the hypotheses of `unauthorised_rejected` are met: 30 roles × 46 guarded variants, most pairs unauthorised
-example : allRoles.length = 30 := by decide
+-- the hypotheses of `unauthorised_rejected` are met: 32 roles × 46 guarded variants, most pairs unauthorised
+example : allRoles.length = 32 := by decide
 example : (allMsgs.filter fun m => (requires m).isSome).length = 46 := by decide
 example : allMsgs.length = 87 := by decide
 -- the finding, concretely: a plain user passes the router's AssertMinimumReceive, not its sibling callback
-example : admits St.init (.terraswap_router .AssertMinimumReceive) .user = true := by decide
-example : admits St.init (.terraswap_router .ExecuteSwapOperation) .user = false := by decide
+example : admits St.init (.terraswap_router .AssertMinimumReceive) .none .user = true := by decide
+example : admits St.init (.terraswap_router .ExecuteSwapOperation) .none .user = false := by decide
+-- inside a flash-loan callback: the borrower (or anybody else) cannot reconfigure the vault, its owner can;
+-- a nested loan is refused for everybody, and the vault router's loan fails one level down
+example : admits (St.init.withLoan true) (.vault .UpdateConfig) .none .borrower = false := by decide
+example : admits (St.init.withLoan true) (.vault .UpdateConfig) .none .user = false := by decide
+example : admits (St.init.withLoan true) (.vault .UpdateConfig) .none .factory = true := by decide
+example : admits (St.init.withLoan true) (.vault .FlashLoan) .none .owner = false := by decide
+example : nestedRefusal (St.init.withLoan true) (.vault_router .FlashLoan) .none .user = true := by decide
+example : nestedRefusal St.init (.vault_router .FlashLoan) .none .user = false := by decide
+-- flows: label 0 denotes flow 1 (flowCreator's); otherFlowCreator owns flow 2 with the same label and is refused
+example : (St.init.resolve (.label 0)).map (·.id) = some 1 := by decide
+example : admits St.init (.incentive .CloseFlow) (.label 0) .otherFlowCreator = false := by decide
+example : admits St.init (.incentive .CloseFlow) (.label 0) .flowCreator = true := by decide
+example : admits St.init (.incentive .CloseFlow) (.id 2) .otherFlowCreator = true := by decide
+-- label 1 denotes flow 4 (otherFlowCreator's, earlier start epoch) although flowCreator's flow 3 has the lower id
+example : (St.init.resolve (.label 1)).map (·.id) = some 4 := by decide
+example : admits St.init (.incentive .CloseFlow) (.label 1) .flowCreator = false := by decide
+example : admits St.init (.incentive .CloseFlow) (.id 3) .flowCreator = true := by decide
+example : admits St.init (.incentive .CloseFlow) (.label 1) .owner = true := by decide
+-- closing by label 0 removes flow 1 only
+example : (effect St.init (.incentive .CloseFlow) ⟨none, .label 0⟩).flows.map (·.id) = [2, 4, 3] := by decide
 
 end WW.C16
